@@ -189,18 +189,22 @@ void listCS(Case& c, unsigned cs, bool f, unsigned nops) {
 
 template <bool Conc>
 void runList(Case& c, const char* name) {
-  unsigned cs   = c.rng.pick({1u, 2u, 2u, 3u, 3u, 4u, 4u, 16u, 64u});
-  bool tracked  = c.rng.below(3) != 0;
+  static const char* EN[] = {"tracked", "pod", "tracked12", "pod20", "tracked24"};
+  unsigned elem = c.rng.below(4) ? (c.rng.below(3) != 0 ? 0u : 1u) : 2 + (unsigned)c.rng.below(3);
+  // 12-, 20- and 24-byte elements: chunk sizes 3 and 16
+  unsigned cs   = elem < 2 ? c.rng.pick({1u, 2u, 2u, 3u, 3u, 4u, 4u, 16u, 64u}) : c.rng.pick({3u, 16u});
   bool useFront = c.rng.below(4) != 0; // front() is part of the per-step checks
   unsigned nops = c.pickOps();
-  std::string cfg = "cs" + std::to_string(cs) + (tracked ? "|tracked" : "|pod") + (useFront ? "|front" : "");
-  if (!c.begin(name, cfg,
-          J().kv("chunk", cs).kv("elem", tracked ? "tracked" : "pod").kv("front_checked", useFront).kv("nops", nops)))
+  std::string cfg = "cs" + std::to_string(cs) + "|" + EN[elem] + (useFront ? "|front" : "");
+  if (!c.begin(name, cfg, J().kv("chunk", cs).kv("elem", EN[elem]).kv("front_checked", useFront).kv("nops", nops)))
     return;
-  if (tracked)
-    listCS<Tracked, Conc>(c, cs, useFront, nops);
-  else
-    listCS<Pod, Conc>(c, cs, useFront, nops);
+  switch (elem) {
+  case 0: return listCS<Tracked, Conc>(c, cs, useFront, nops);
+  case 1: return listCS<Pod, Conc>(c, cs, useFront, nops);
+  case 2: return cs == 3 ? listT<Tracked12, 3, Conc>(c, useFront, nops) : listT<Tracked12, 16, Conc>(c, useFront, nops);
+  case 3: return cs == 3 ? listT<Pod20, 3, Conc>(c, useFront, nops) : listT<Pod20, 16, Conc>(c, useFront, nops);
+  default: return cs == 3 ? listT<Tracked24, 3, Conc>(c, useFront, nops) : listT<Tracked24, 16, Conc>(c, useFront, nops);
+  }
 }
 
 } // namespace
